@@ -180,11 +180,14 @@ def load_known_findings():
 
 
 def write_evidence(prop, tier, seed, level, coverage, assumptions, wall_s, violations):
-    os.makedirs(os.path.join(VERIF, "evidence"), exist_ok=True)
+    # evidence/ describes runs against /repo itself; runs pointed at another tree (VERIF_REPO: mutation testing on a
+    # copy) write theirs next to the scratch copies so that they can never be mistaken for, or overwrite, the real ones
+    evdir = os.path.join(VERIF, "evidence") if os.path.realpath(REPO) == "/repo" else os.path.join(SCRATCH_ROOT, "evidence-other-tree")
+    os.makedirs(evdir, exist_ok=True)
     ev = {"property_id": prop, "tier": tier, "seed": seed, "level": level,
           "coverage": coverage, "assumptions": assumptions, "wall_s": round(wall_s, 2),
           "violations": violations}
-    p = os.path.join(VERIF, "evidence", prop + ".json")
+    p = os.path.join(evdir, prop + ".json")
     tmp = p + ".tmp"
     with open(tmp, "w") as f:
         json.dump(ev, f, indent=1, sort_keys=False)
